@@ -348,43 +348,40 @@ Definition row_key (r : row) : nat * Z := fst r.
 Definition row_extra (r : row) : list Z := snd r.
 Definition ans_cols (a : option (list Z)) : list Z := match a with Some e => e | None => [] end.
 Definition store_row (i : nat) (v : Z) (ans : option (list Z)) : row := (i, v, ans_cols ans).
-Definition next_ans (comp : list (option (list Z))) : option (list Z) * list (option (list Z)) :=
-  match comp with [] => (None, []) | a :: r => (a, r) end.
-
-Fixpoint log_loop (batch : list (nat * rep)) (decs : list (dec * nat)) (comp : list (option (list Z)))
-         (done : list nat) (rows : list row) : list row * list (option (list Z)) :=
+(* [comp k] = the composer's answer at its k-th call (k = 0, 1, ...); [n] = calls so far *)
+Fixpoint log_loop (comp : nat -> option (list Z)) (batch : list (nat * rep)) (decs : list (dec * nat))
+         (done : list nat) (n : nat) (rows : list row) : list row * nat :=
   match batch with
-  | [] => (rows, comp)
+  | [] => (rows, n)
   | (i, r) :: rest =>
-      if mem_nat i done then log_loop rest decs comp done rows
+      if mem_nat i done then log_loop comp rest decs done n rows
       else
         let '(d, _, decs') := next_dec decs in
-        let '(ans, comp') := next_ans comp in
-        let rows1 := rows ++ [store_row i (snd r) ans] in
+        let rows1 := rows ++ [store_row i (snd r) (comp n)] in
         match d with
-        | CONT => log_loop rest decs' comp' done rows1
-        | _ => log_loop rest decs' comp' (i :: done) rows1
+        | CONT => log_loop comp rest decs' done (S n) rows1
+        | _ => log_loop comp rest decs' (i :: done) (S n) rows1
         end
   end.
 
-Definition poll_log (bk : bkind) (st : state) (ids : list nat) (decs : list (dec * nat))
-           (comp : list (option (list Z))) (rows : list row) : list row * list (option (list Z)) :=
-  if ids_ok (trials st) ids then log_loop (snd (fetch bk ids (trials st))) decs comp [] rows
-  else (rows, comp).
+Definition poll_log (bk : bkind) (comp : nat -> option (list Z)) (st : state) (ids : list nat)
+           (decs : list (dec * nat)) (n : nat) (rows : list row) : list row * nat :=
+  if ids_ok (trials st) ids then log_loop comp (snd (fetch bk ids (trials st))) decs [] n rows
+  else (rows, n).
 
-(* the results log after a whole run *)
-Fixpoint run_log (bk : bkind) (st : state) (evs : list ev) (comp : list (option (list Z)))
-         (rows : list row) : list row :=
+(* the results log (and the number of composer calls) after a whole run *)
+Fixpoint run_log (bk : bkind) (comp : nat -> option (list Z)) (st : state) (evs : list ev)
+         (n : nat) (rows : list row) : list row * nat :=
   match evs with
-  | [] => rows
+  | [] => (rows, n)
   | e :: r =>
-      let '(rows1, comp1) := match e with
-                             | Poll ids decs => poll_log bk st ids decs comp rows
-                             | _ => (rows, comp)
-                             end in
+      let '(rows1, n1) := match e with
+                          | Poll ids decs => poll_log bk comp st ids decs n rows
+                          | _ => (rows, n)
+                          end in
       match step bk st e with
-      | (st1, None) => run_log bk st1 r comp1 rows1
-      | (_, Some _) => rows1
+      | (st1, None) => run_log bk comp st1 r n1 rows1
+      | (_, Some _) => (rows1, n1)
       end
   end.
 
